@@ -152,6 +152,27 @@ func (g *c13Rig) stop() bool {
 	}
 }
 
+// c13BadActions puts a misconfigured action in front of each list (a set-value action without point type, an
+// action of an unknown kind): the well-formed actions behind them must still run.
+func c13BadActions(r client.Rule) client.Rule {
+	r.Actions = append([]client.Action{{ID: "bad1", Parent: "rule1", Action: data.PointValueSetValue, NodeID: "target", PointType: ""}}, r.Actions...)
+	r.ActionsInactive = append([]client.Action{{ID: "bad2", Parent: "rule1", Action: "noSuchAction", NodeID: "target", PointType: "x"}}, r.ActionsInactive...)
+	return r
+}
+
+// c13DropBad removes what concerns the misconfigured actions and the error reports (their wording is not
+// part of the statement) from a publication list.
+func c13DropBad(ps []c13Pub) []c13Pub {
+	var out []c13Pub
+	for _, p := range ps {
+		if p.subject == "p.bad1" || p.subject == "p.bad2" || p.typ == data.PointTypeError {
+			continue
+		}
+		out = append(out, p)
+	}
+	return out
+}
+
 func c13Rule(conds []client.Condition) client.Rule {
 	r := client.Rule{ID: "rule1", Parent: "P", Description: "r"}
 	for i, c := range conds {
@@ -288,7 +309,12 @@ func c13PointsBody(t *testing.T, nBatches int, twoPoint bool, storedFlags ...boo
 			rule := c13Rule(cs)
 			condActive := make([]bool, len(cs))
 			ruleActive := false
+			bad := false
 			if flags {
+				bad = x.Choose(2, "misconfigured actions in front of the lists") == 1
+				if bad {
+					rule = c13BadActions(rule)
+				}
 				ruleActive = x.Choose(2, "stored rule flag") == 1
 				rule.Active = ruleActive
 				for i := range condActive {
@@ -336,7 +362,11 @@ func c13PointsBody(t *testing.T, nBatches int, twoPoint bool, storedFlags ...boo
 				// a condition may flip forth and back while the points of one batch are processed: what counts
 				// is the state after the batch, so transient condition publications are reduced to the last one
 				// (and dropped if that restates the state before the batch)
-				got, want := sortedPubs(c13Settle(g.pubs, prevCond)), sortedPubs(exp)
+				pubs := g.pubs
+				if bad {
+					pubs = c13DropBad(pubs)
+				}
+				got, want := sortedPubs(c13Settle(pubs, prevCond)), sortedPubs(exp)
 				if strings.Join(got, "\n") != strings.Join(want, "\n") {
 					cls := "no-conditions"
 					if len(cs) > 0 {
@@ -516,7 +546,7 @@ func TestC13(t *testing.T) {
 		r.Explore(mc.Config{Name: fmt.Sprintf("point-conditions-two-point-batches-b%d", nb2), Serial: true, SplitDepth: 2,
 			Rule: fmt.Sprintf("same rule configurations x %d batch(es) of 1 or 2 points from one node (all ordered pairs of the 64-point alphabet): the latest matching point of a batch decides, whatever the earlier ones did", nb2)}, c13PointsBody(t, nb2, true))
 		r.Explore(mc.Config{Name: "point-conditions-stored-flags-b1", Serial: true, SplitDepth: 2,
-			Rule: "same rule configurations plus the rule without conditions, started with every combination of stored `active` flags of the rule and of each condition (a rule client restarted after its configuration changed: the stored rule flag may disagree with the conditions) x one single-point batch: after the batch the rule is active exactly when all conditions are, and the action list ran iff the rule's state changed"},
+			Rule: "same rule configurations plus the rule without conditions, started with every combination of stored `active` flags of the rule and of each condition (a rule client restarted after its configuration changed: the stored rule flag may disagree with the conditions), with and without a misconfigured action in front of each action list (set-value without point type, unknown action kind: the well-formed actions behind it must still run) x one single-point batch: after the batch the rule is active exactly when all conditions are, and the action list ran iff the rule's state changed"},
 			c13PointsBody(t, 1, false, true))
 		r.Explore(mc.Config{Name: fmt.Sprintf("schedule-conditions-s%d", steps), Serial: true, SplitDepth: 3,
 			Rule: fmt.Sprintf("6 schedule windows around the (virtual) clock start 2000-01-01T00:00:00Z incl. wrap over midnight and start=end, each with weekdays {every day, Saturday (the start day), Sunday, Friday}, alone / AND a number condition / AND a second schedule condition with its own weekdays {every day, Saturday, Sunday} x all sequences of %d operations over {advance 9 s, 10 s, 25 s, 60 s, 61 s, point 4, point 6}; after every operation the publications are compared with the interval model evaluated at each 10 s tick", steps)},
